@@ -172,6 +172,12 @@ func (p *Program) verifyFunction(name string) (enc *Enc, err error) {
 			entry = append(entry, tr.boolExpr(r.Expr))
 		}
 	}
+	if con != nil {
+		tr := &Translator{f: f, cur: f.st, old: f.st, allocOld: alloc0}
+		for _, u := range con.Uses {
+			enc.extras = append(enc.extras, tr.useInstance(u)...)
+		}
+	}
 	pathIn := enc.define("ENTRY", And(entry...))
 	enc.obls = append(enc.obls, &Obl{Name: "cover:entry", Class: "cover", Func: name, Path: pathIn, Cond: True, Cover: true, Pos: p.pos(fn.Pos())})
 	results, outSt, outPath, ok := f.run(args, State{}, pathIn)
@@ -192,6 +198,7 @@ func (p *Program) verifyFunction(name string) (enc *Enc, err error) {
 			tr := &Translator{f: f, env: env, cur: outSt, old: f.entrySt, allocOld: alloc0}
 			c := tr.boolExpr(e.Expr)
 			o := &Obl{Name: "post:" + clauseName(e, k), Class: "post", Func: name, Path: outPath, Cond: c, Pos: p.pos(fn.Pos()), Props: e.Props}
+			o.Extra = append(o.Extra, enc.extras...)
 			for _, u := range con.Uses {
 				o.Extra = append(o.Extra, tr.useInstance(u)...)
 			}
